@@ -166,6 +166,207 @@ def conc_helper(r):
     return dict(call='%s(%r)' % (cx['helper'], s), observed=got, input=['helper', cx['helper'], s]), bad
 
 
+# ---------------------------------------------------------------------------- symbolic: normalize_event_code on every shape
+_NSC = {}
+
+
+def _ns():
+    from props import codeshapes as CS
+    if 'ns' not in _NSC:
+        _NSC['ns'] = (CS.Namespace(['_norm_tzeroes', '_norm_cm', '_norm_m', '_norm_kg', '_norm_g', 'normalize_event_code', 'check_event_code']),
+                      CS.sym_patterns(FAMS + ['PAT_EVENT_CODE']))
+    return _NSC['ns']
+
+
+def _force(x):
+    return x.force() if hasattr(x, 'force') else x
+
+
+def _no_ws(r):
+    """z3 condition: no cell of r is a whitespace character"""
+    conds = []
+    for cl in S.cells_of(r):
+        if isinstance(cl, str):
+            if cl.isspace():
+                return z3.BoolVal(False)
+        elif not cl.cc.inter(S.WSCC).empty():
+            conds.append(z3.Not(S.WSCC.z3in(cl.cp)))
+    return z3.And(*conds) if conds else z3.BoolVal(True)
+
+
+def _fams(P, x):
+    return tuple(bool(P[n].match(x)) for n in FAMS)
+
+
+def _number_variants(P, s, gnames):
+    """spellings of s that differ in the trailing zeros / bare point of one weight or hurdle-specification number: the cells of s
+    with '0' appended to a fraction, or '.0' / '.' appended to a whole number (kept only if accepted, checked by the caller)"""
+    m = P['PAT_EVENT_CODE'].match(s)
+    out = []
+    if not m:
+        return out
+    cells = list(S.cells_of(s))
+    for k in gnames:
+        a, b = m.span(k)
+        if a < 0 or a == b:
+            continue
+        # the number = leading [ws] digits [. digits] of the group
+        i = a
+        while i < b and isinstance(cells[i], S.Var) and cells[i].cc.subset(S.WSCC):
+            i += 1
+        j = i
+        dot = None
+        while j < b and ((isinstance(cells[j], str) and (cells[j] in '0123456789' or (cells[j] == '.' and dot is None)))
+                         or (isinstance(cells[j], S.Var) and cells[j].cc.subset(S.DIGITS))):
+            if isinstance(cells[j], str) and cells[j] == '.':
+                dot = j
+            j += 1
+        if j == i:
+            continue
+        if dot is not None:
+            out.append(('%s+0' % k, S.mk(cells[:j] + ['0'] + cells[j:])))
+        else:
+            out.append(('%s+.0' % k, S.mk(cells[:j] + ['.', '0'] + cells[j:])))
+            out.append(('%s+.' % k, S.mk(cells[:j] + ['.'] + cells[j:])))
+    return out
+
+
+def _suffix_variants(s):
+    """k <-> kg and (nothing) <-> g at the end of the code"""
+    cells = list(S.cells_of(s))
+    out = []
+
+    def isin(cl, chars):
+        return (isinstance(cl, str) and cl in chars) or (isinstance(cl, S.Var) and cl.cc.subset(S.CC.of(chars)))
+    if cells and isin(cells[-1], 'kK'):
+        out.append(('k->kg', S.mk(cells + ['g'])))
+        out.append(('k->kG', S.mk(cells + ['G'])))
+    if len(cells) > 1 and isin(cells[-1], 'gG') and isin(cells[-2], 'kK'):
+        out.append(('kg->k', S.mk(cells[:-1])))
+    if cells and isin(cells[-1], 'g') and not (len(cells) > 1 and isin(cells[-2], 'kK')):
+        out.append(('g->', S.mk(cells[:-1])))
+    if cells and (isin(cells[-1], '0123456789')):
+        out.append(('->g', S.mk(cells + ['g'])))
+    return out
+
+
+def unit_norm_shapes(job):
+    """normalize_event_code on "any content of this shape": accepted, whitespace-free, idempotent, same families; the case /
+    spacing / unit-suffix / trailing-zero variants of the same symbolic string normalise to the identical code; and with ONE
+    position replaced by an arbitrary character: normalised iff accepted (stripped), ValueError otherwise."""
+    from props import codeshapes as CS
+    shapes, miss_mode = job
+    ns, P = _ns()
+    norm = ns['normalize_event_code']
+    gnames = list(utils()._gnorms)
+    res_all = None
+
+    def merge(r, shape, kind):
+        nonlocal res_all
+        for x in r['results']:
+            x['ctx'] = dict(shape=[c if isinstance(c, str) else list(c.r) for c in shape], kind=kind)
+        if res_all is None:
+            res_all = r
+        else:
+            res_all['results'] += r['results']
+            res_all['paths'] += r['paths']
+            res_all['wall'] += r['wall']
+            res_all['assumptions'] = sorted(set(res_all['assumptions']) | set(r['assumptions']))
+            res_all['sample'] = res_all['sample'] or r['sample']
+
+    for si, (fam, shape) in enumerate(shapes):
+        def run():
+            c = ctx()
+            s = S.SStr.fresh('s', shape)
+            try:
+                r = _force(norm(s))
+            except Exception as e:
+                c.oblige('normalize_event_code/an-accepted-code-is-normalised', False, 'raises', meta=dict(exc=type(e).__name__))
+                return None
+            c.oblige('normalize_event_code/an-accepted-code-is-normalised', isinstance(r, (str, S.SStr)), 'raises')
+            if not isinstance(r, (str, S.SStr)):
+                return None
+            c.oblige('normalize_event_code/normal-form-is-accepted', bool(P['PAT_EVENT_CODE'].match(r)), 'post', meta=dict(result=repr(r)))
+            c.oblige('normalize_event_code/normal-form-has-no-whitespace', _no_ws(r), 'post', meta=dict(result=repr(r)))
+            try:
+                r2 = _force(norm(r))
+                c.oblige('normalize_event_code/idempotent', zbool(sym_eq(r2, r)), 'post', meta=dict(result=repr(r), again=repr(r2)))
+            except Exception as e:
+                c.oblige('normalize_event_code/idempotent', False, 'post', meta=dict(result=repr(r), again='raises %s' % type(e).__name__))
+            fs = _fams(P, s)
+            c.oblige('normalize_event_code/same-families', fs == _fams(P, r), 'post', meta=dict(result=repr(r)))
+            # variants of the same symbolic string
+            nows = S.mk([cl for cl in S.cells_of(s) if not (isinstance(cl, S.Var) and cl.cc.subset(S.WSCC))])
+            vs = [('upper', s.upper()), ('lower', s.lower()), ('no-spaces', nows)]
+            if fam == 'PAT_THROWS' or CS.has_spec(shape):
+                vs += _suffix_variants(s) + _number_variants(P, s, gnames)
+            for name, v in vs:
+                if not isinstance(v, (str, S.SStr)) or (isinstance(v, str) and isinstance(s, str) and v == s):
+                    continue
+                if not P['PAT_EVENT_CODE'].match(v) or _fams(P, v) != fs:
+                    continue
+                try:
+                    rv = _force(norm(v))
+                    c.oblige('normalize_event_code/variant-normalises-to-the-identical-code/%s' % name.split('+')[-1].split('>')[-1] if False else
+                             'normalize_event_code/variant-normalises-to-the-identical-code', zbool(sym_eq(rv, r)), 'post',
+                             meta=dict(variant=name, of=repr(s), result=repr(r), variant_result=repr(rv)))
+                except Exception as e:
+                    c.oblige('normalize_event_code/variant-normalises-to-the-identical-code', False, 'post', meta=dict(variant=name, exc=type(e).__name__))
+            return None
+        merge(U.verify('normalize[%s]' % CS.show(shape), run, None, want_sample=(res_all is None)), shape, 'norm')
+        # near misses: one position arbitrary
+        L = len(shape)
+        if miss_mode == 'all':
+            poss = range(L)
+        elif miss_mode == 'one':
+            poss = [si % L] if L else []
+        else:
+            poss = []
+        for pos in poss:
+            mshape = list(shape)
+            mshape[pos] = S.ANYCHAR
+
+            def runm():
+                c = ctx()
+                s = S.SStr.fresh('s', mshape)
+                ok = bool(P['PAT_EVENT_CODE'].match(s.strip()))
+                try:
+                    r = norm(s)
+                    c.oblige('normalize_event_code/normalises-exactly-the-accepted-strings', ok, 'post', meta=dict(outcome='normalised'))
+                except ValueError:
+                    c.oblige('normalize_event_code/normalises-exactly-the-accepted-strings', not ok, 'post', meta=dict(outcome='ValueError'))
+                except Exception as e:
+                    c.oblige('normalize_event_code/only-ValueError-is-raised', False, 'raises', meta=dict(exc=type(e).__name__))
+                return None
+            merge(U.verify('near-miss[%s@%d]' % (CS.show(shape), pos), runm, None, want_sample=False), mshape, 'miss')
+    res_all['unit'] = 'normalize-on-shapes[%d]' % len(shapes)
+    res_all['nshapes'] = len(shapes)
+    return res_all
+
+
+def conc_norm_shape(r):
+    from pyvc import shapes as SH
+    shape = [c if isinstance(c, str) else S.CC(c) for c in r['ctx']['shape']]
+    s = SH.concretise(shape, r.get('model') or {})
+    if codes().PAT_EVENT_CODE.match(s.strip()) and codes().PAT_EVENT_CODE.match(s):
+        w = check_code(s, random.Random(0))
+    elif codes().PAT_EVENT_CODE.match(s.strip()):
+        try:
+            utils().normalize_event_code(s)
+            w = None
+        except Exception as e:
+            w = 'an accepted code (after stripping) raises %s' % type(e).__name__
+    else:
+        try:
+            utils().normalize_event_code(s)
+            w = 'a string that is not an event code was normalised'
+        except ValueError:
+            w = None
+        except Exception as e:
+            w = 'raises %s instead of ValueError' % type(e).__name__
+    return dict(call='normalize_event_code(%r)' % s, observed=w or 'the run-time contract holds', input=['code', s]), bool(w)
+
+
 # ---------------------------------------------------------------------------- bounded: the enumerated language and its variants
 def families(s):
     c = codes()
@@ -292,6 +493,13 @@ def _work(job):
         return r
     if job[0] == 'chunk':
         return ('chunk',) + chunk(job[1])
+    if job[0] == 'shapes':
+        r = unit_norm_shapes(job[1])
+        r['job'] = job[0]
+        return r
+    if job[0] == 'matcher':
+        from props import codeshapes as CS
+        return ('matcher',) + CS.selfcheck_matcher(job[1])
     return ('refusal',) + refusal(job[1], job[2])
 
 
@@ -344,12 +552,46 @@ def main(tier, seed):
     lang = G.strings(c.PAT_EVENT_CODE, 1)
     cs = 4000
     J += [('chunk', (lang[i:i + cs], seed)) for i in range(0, len(lang), cs)] + [('refusal', seed, lang)]
+    # symbolic: normalize_event_code on every shape of the language (+ one arbitrary character per shape: the refusal clause)
+    from props import codeshapes as CS
+    shp = CS.shape_sets(tier, spec_every=(2, 200))
+    njobs = max(1, min(96, len(shp) // 12))
+    J += [('shapes', (shp[i::njobs], 'all' if tier == 'thorough' else 'one')) for i in range(njobs)]
+    rnd = random.Random(seed)
+    probe = [rnd.choice(lang) for _ in range(400)]
+    probe += [''.join(rnd.choice('xQ!_-0Z# \n9.') if rnd.random() < 0.15 else ch for ch in s) for s in probe[:200]] + ['100\n', '', '\n', ' 100', '4x100\n\n']
+    J += [('matcher', probe[i::4]) for i in range(4)]
     results = report.pool_map(_work, J)
     n = 0
     allbad = []
+    nshape = 0
     for res in results:
         if isinstance(res, dict) and '_crash' in res:
             U.absorb(run, res)
+            continue
+        if isinstance(res, dict) and res.get('job') == 'shapes':
+            nshape += res.get('nshapes', 0)
+
+            def on_refuted_shape(r, _res):
+                rep, bad = conc_norm_shape(r)
+                rep = dict(rep, model=r.get('model'), unit=_res['unit'], solver='z3 sat', meta=r.get('meta'),
+                           shape=CS.show([c if isinstance(c, str) else S.CC(c) for c in r['ctx']['shape']]))
+                if bad:
+                    e = run.match_known(r['name'], dict(what=rep['observed'], code=rep['input'][1], codes=[rep['input'][1]]))
+                    if e:
+                        run.known_finding(e)
+                    elif sum(1 for v in run.violations if v['obligation'] == r['name']) < 6:
+                        run.violation(r['name'], rep, True)
+                else:
+                    run.spurious_model(r['name'], rep)
+            U.absorb(run, res, on_refuted_shape)
+            continue
+        if isinstance(res, tuple) and res[0] == 'matcher':
+            ok = not res[2]
+            run.record('symbolic-matcher-agrees-with-re/%d-comparisons' % res[1], 'ground', 'proved' if ok else 'unknown', 'ground-evaluation', 0.0, 'matcher',
+                       None if ok else 'the symbolic matcher disagrees with re: %r' % (res[2][:2],))
+            if not ok:
+                run.checker_error('symbolic regex matcher disagrees with re: %r' % (res[2][:3],))
             continue
         if isinstance(res, tuple):
             n += res[1]
@@ -384,6 +626,9 @@ def main(tier, seed):
         run.violation('normal-form-valid-stable-same-families-variants-agree/on-the-enumerated-language',
                       dict(call='normalize_event_code(%r) (and %d more codes)' % (v[0][0], len(v) - 1), observed=v[0][1], more=[x[0] for x in v[:10]],
                            input=['code', v[0][0]]), True)
+    run.extra['shapes_explored'] = nshape
+    for d in _ns()[0].describe():
+        run.add_function(d)
     run.bounded.append(dict(what='normalisation contract on the enumerated language of PAT_EVENT_CODE and its case/space/suffix/trailing-zero variants; '
                                  'near-miss strings', bound='%d codes + variants, seed %d' % (len(lang), seed), evaluations=n, distinct_nontrivial=len(lang),
                             decides='the validity / stability / family / variant / refusal clauses (bounded)'))
